@@ -234,6 +234,8 @@ func c17Fixtures(seed uint64) *c17fx {
 	fx.fcObj = &geojson.FeatureCollection{Features: fx.featObjs[:8]}
 	fx.wktEncs = []*wkt.Encoder{wkt.NewEncoder(), wkt.NewEncoder(wkt.EncodeOptionWithMaxDecimalDigits(2)), wkt.NewEncoder(wkt.EncodeOptionWithMaxDecimalDigits(0))}
 	fx.wkts = append(fx.wkts, "POINT (1 2", "LINESTRING (1 2)", "GEOMETRYCOLLECTION M (POINT (1 2 3))", "  multipoint z ((1 2 3), EMPTY)\n")
+	// a complete geometry followed by something the lexer / the parser refuses
+	fx.wkts = append(fx.wkts, "POINT (1 2) }", "LINESTRING (1 2, 3 4) 2.3.7", "POINT Z (1 2 3) FOO", "POLYGON EMPTY )", "MULTIPOINT (1 2, 3 4) ,", "POINT (1 2) POINT (3 4)", "point (1 2)\x00")
 	fx.wkbs = append(fx.wkbs, []byte{1, 2, 0, 0, 0, 3, 0, 0, 0, 1, 2}, []byte{})
 	for i := 0; i < 24; i++ {
 		n := []int{1, 2, 3, 7, 30, 50, 51, 52, 80, 200}[i%10]
@@ -295,6 +297,25 @@ func c17Fixtures(seed uint64) *c17fx {
 	for i := 0; i < 40; i++ {
 		fx.coords = append(fx.coords, geom.Coord(c17Canary(withSpare([]float64{float64(r.Range(-20, 20)), float64(r.Range(-20, 20)), float64(r.Range(-20, 20))}, 4))))
 	}
+	// segment pairs in special position, four consecutive coordinates each: collinear
+	// overlaps (whose reported end points are the caller's own coordinates), end
+	// point and T touches, zero-length segments; some zero ordinates are written as
+	// -0, which only a bitwise look at the inputs tells from 0
+	nz := math.Copysign(0, -1)
+	for _, q := range [][12]float64{
+		{0, nz, 1, 4, nz, 2, 2, 0, 3, 6, nz, 4},    // horizontal overlap (2,0)-(4,0)
+		{nz, 0, 1, nz, 8, 2, 0, 3, 3, nz, 5, 4},    // vertical containment
+		{nz, nz, 0, 6, 6, 0, 2, 2, nz, 9, 9, 1},    // diagonal overlap
+		{4, 0, 1, 0, nz, 2, 2, nz, 3, 6, 0, 4},     // overlap, first segment reversed
+		{0, 0, nz, 5, nz, 1, 5, 0, 2, 9, 3, 3},     // end point touch at (5,0)
+		{nz, nz, 1, 10, nz, 2, 5, 0, nz, 5, 7, 4},  // T touch at (5,0)
+		{1, 1, 1, 1, 1, nz, 1, 1, 2, 4, 5, 6},      // zero-length first segment
+		{-3, nz, 5, 3, nz, 5, nz, -4, 5, nz, 4, 5}, // proper crossing at the origin
+	} {
+		for j := 0; j < 4; j++ {
+			fx.coords = append(fx.coords, geom.Coord(c17Canary(withSpare([]float64{q[3*j], q[3*j+1], q[3*j+2]}, 4))))
+		}
+	}
 	for i := 0; i < 6; i++ {
 		n := r.Range(1, 30)
 		flat := make([]float64, 0, 5*n)
@@ -320,6 +341,22 @@ func c17Fixtures(seed uint64) *c17fx {
 		}
 	}
 	return fx
+}
+
+// c17Spelling changes the case of the letters of a WKT text, pattern drawn from k.
+func c17Spelling(text string, k uint64) string {
+	b := []byte(text)
+	h := k*0x9E3779B97F4A7C15 + 0x1234567
+	for i, ch := range b {
+		if ch >= 'A' && ch <= 'Z' || ch >= 'a' && ch <= 'z' {
+			h ^= h >> 29
+			h *= 0xBF58476D1CE4E5B9
+			if h>>40&1 == 1 {
+				b[i] = ch ^ 0x20
+			}
+		}
+	}
+	return string(b)
 }
 
 // c17Canary fills the spare capacity of f with a recognisable value.
@@ -504,6 +541,14 @@ var c17Registry = func() []c17fn {
 		r := lineintersector.LineIntersectsLine(lineintersector.NonRobustLineIntersector{}, fx.coords[k], fx.coords[k+1], fx.coords[k+2], fx.coords[k+3])
 		return fmt.Sprint(r.Type(), r.Intersection(), lineintersector.PointIntersectsLine(lineintersector.RobustLineIntersector{}, fx.coords[k], fx.coords[k+1], fx.coords[k+2]))
 	})
+	add("lineintersector.LineIntersectsLine(robust, nonrobust, robust again)", nc, func(fx *c17fx, k int) string {
+		a, b, c, d := fx.coords[k], fx.coords[k+1], fx.coords[k+2], fx.coords[k+3]
+		r1 := lineintersector.LineIntersectsLine(lineintersector.RobustLineIntersector{}, a, b, c, d)
+		s1 := fmt.Sprint(r1.Type(), r1.Intersection())
+		r2 := lineintersector.LineIntersectsLine(lineintersector.NonRobustLineIntersector{}, a, b, c, d)
+		r3 := lineintersector.LineIntersectsLine(lineintersector.RobustLineIntersector{}, a, b, c, d)
+		return s1 + fmt.Sprint(r2.Type(), r2.Intersection(), r3.Type(), r3.Intersection(), r1.Type(), r1.Intersection())
+	})
 	add("xyz.*", nc, func(fx *c17fx, k int) string {
 		a, b, c, d := fx.coords[k], fx.coords[k+1], fx.coords[k+2], fx.coords[k+3]
 		return fbits(xyz.Distance(a, b)) + fbits(xyz.DistancePointToLine(a, b, c)) + fbits(xyz.DistanceLineToLine(a, b, c, d)) + fbits(xyz.VectorDot(a, b, c, d)) + fbits(xyz.VectorLength(a)) + cstr(xyz.VectorNormalize(a)) + fmt.Sprint(xyz.Equals(a, b))
@@ -552,6 +597,16 @@ var c17Registry = func() []c17fn {
 		s, err := wkt.Marshal(fx.geoms[k])
 		s2, err2 := wkt.Marshal(fx.geoms[k], wkt.EncodeOptionWithMaxDecimalDigits(k%4))
 		return fmt.Sprint(s, err, s2, err2)
+	})
+	// the same texts with the letter case of every keyword drawn from k: 4096 spellings,
+	// most of which the process parses for the first time while other goroutines
+	// are in the parser as well (the cold phase comes before any sequential pass)
+	add("wkt.Unmarshal(spelling never seen before)", func(fx *c17fx) int { return 4096 }, func(fx *c17fx, k int) string {
+		t, err := wkt.Unmarshal(c17Spelling(fx.wkts[k%len(fx.wkts)], uint64(k)))
+		if err != nil {
+			return "err" // the message quotes the input
+		}
+		return gstr(t, nil)
 	})
 	add("wkt.Unmarshal", func(fx *c17fx) int { return len(fx.wkts) }, func(fx *c17fx, k int) string {
 		t, err := wkt.Unmarshal(fx.wkts[k])
@@ -764,6 +819,7 @@ type c17Result struct {
 	InputsHashed int64            `json:"inputs_hashed"`
 	Goroutines   int              `json:"goroutines"`
 	Bursts       int              `json:"bursts"`
+	ColdCalls    int64            `json:"cold_calls"`
 }
 
 // C17Worker is the child: phases 1-3 on one fixture set, at one GOMAXPROCS.
@@ -779,6 +835,42 @@ func C17Worker(seed uint64, procs int, tier string, out string) error {
 	maxElems := wkbcommon.MaxGeometryElements
 	defLayout := geojson.DefaultLayout
 	h0 := c17Hash(fx)
+	// phase 0: cold start.  The first calls this process makes into most of the
+	// library are made by 32 goroutines at once, before any sequential pass has
+	// had the chance to fill a lazily built table, cache or pool ("first use" is
+	// where hidden shared state gets written).  No monitor synchronisation between
+	// barrier and join; the results are compared with the golden ones afterwards.
+	type rec struct {
+		fi, k int
+		res   string
+	}
+	var wg sync.WaitGroup
+	coldLogs := make([][]rec, 32)
+	{
+		start0 := make(chan struct{})
+		for g := range coldLogs {
+			wg.Add(1)
+			go func(g int) {
+				defer wg.Done()
+				r := fw.NewRand(seed, "C17", "cold", g)
+				local := make([]rec, 0, 400)
+				<-start0
+				for i := 0; i < 400; i++ {
+					fi := r.Intn(len(c17Registry))
+					fn := &c17Registry[fi]
+					k := r.Intn(fn.n(fx))
+					local = append(local, rec{fi, k, c17Call(fn, fx, k)})
+				}
+				coldLogs[g] = local
+			}(g)
+		}
+		close(start0)
+		wg.Wait()
+		if h := c17Hash(fx); h != h0 {
+			addV("argument-modified", "the shared inputs changed during the cold-start concurrent phase", map[string]any{"phase": 0})
+			h0 = h
+		}
+	}
 	// phase 1: sequential, per-call input hashing, golden results
 	golden := make([][]string, len(c17Registry))
 	for fi := range c17Registry {
@@ -800,6 +892,16 @@ func C17Worker(seed uint64, procs int, tier string, out string) error {
 	}
 	if wkbcommon.MaxGeometryElements != maxElems || geojson.DefaultLayout != defLayout {
 		addV("global-modified", "a package-level variable (MaxGeometryElements / DefaultLayout) changed value", map[string]any{"phase": 1})
+	}
+	for g := range coldLogs {
+		for _, rc := range coldLogs[g] {
+			res.Calls[c17Registry[rc.fi].name]++
+			res.ColdCalls++
+			if rc.res != golden[rc.fi][rc.k] {
+				addV("concurrent-result-differs", fmt.Sprintf("%s on fixture %d returned %s when called concurrently right after process start, %s when called alone later", c17Registry[rc.fi].name, rc.k, clipStr(rc.res, 200), clipStr(golden[rc.fi][rc.k], 200)),
+					map[string]any{"function": c17Registry[rc.fi].name, "fixture": rc.k, "phase": "cold"})
+			}
+		}
 	}
 	// phase 1b: bursts with the garbage collector switched off.  A function that
 	// recycles scratch memory (a sync.Pool, a package-level buffer) behaves
@@ -869,13 +971,8 @@ func C17Worker(seed uint64, procs int, tier string, out string) error {
 		M = 6000
 	}
 	res.Goroutines = G
-	type rec struct {
-		fi, k int
-		res   string
-	}
 	logs := make([][]rec, G)
 	start := make(chan struct{})
-	var wg sync.WaitGroup
 	for g := 0; g < G; g++ {
 		wg.Add(1)
 		go func(g int) {
@@ -1130,8 +1227,9 @@ func c17Special(p *fw.Parent) int {
 			sum.AddCounter("inputs_hashed", r.InputsHashed)
 			sum.AddCounter("rounds", 1)
 			sum.AddCounter(fmt.Sprintf("rounds_gomaxprocs_%d", j.procs), 1)
-			sum.AddCounter("goroutines", int64(r.Goroutines+32))
+			sum.AddCounter("goroutines", int64(r.Goroutines+32+32))
 			sum.AddCounter("gc_off_bursts_of_3300_calls", int64(r.Bursts))
+			sum.AddCounter("cold_start_concurrent_calls", r.ColdCalls)
 			for _, v := range r.Violations {
 				sum.AddViolation(v)
 			}
